@@ -34,7 +34,7 @@ def floors(tier):
             "multiple_exact_false": 2000, "big_int_pairs": 1000, "path_float_quotient": 1000,
             "path_overflow_fallback": 1000, "path_int_mod": 1000, "region_multipleOf_except_hit": 1,
             "bound_true": 10000, "bound_false": 10000, "compared_bound_pairs": 5000, "bound_pair_true": 500,
-            "bound_pair_false": 500, "compared_nested_under_root_decoys": 20000}
+            "bound_pair_false": 500, "compared_nested_under_root_decoys": 20000, "compared_through_cli": 5000}
 
 
 def pool():
@@ -169,6 +169,56 @@ def check_nested(ctx, draft, schema, i, want):
             ctx.violation("nested", case, "implementation %s below a root with its own numeric keywords, exact arithmetic %s" % (got, want))
 
 
+def cli_cases(ctx):
+    """The same decisions through the command line (schema and instance read from files with the CLI's own JSON loader):
+    exit status 0 exactly when exact arithmetic says valid, and nothing but SystemExit-free, traceback-free runs."""
+    import io
+    import json
+    import shutil
+    import tempfile
+    from jsonschema import cli
+    nums = [0, 1, 7, -3, 10 ** 30, 10 ** 400, 2 ** 53 + 1, 0.5, 1.5, 0.1, 0.3, 1e30, 1e308, 5e-324, 2.5, 1.0, 3.0, 1e-7, 123456789.125, -0.75, 1e22, 9007199254740993.0]
+    tmp = tempfile.mkdtemp(prefix="vf_c09_")
+    try:
+        k = 0
+        for draft in impl.DRAFTS:
+            for b in nums:
+                for schema, kind, exp in schemas_for(draft, b):
+                    k += 1
+                    if not ctx.mine(k):
+                        continue
+                    sp = "%s/s%d.json" % (tmp, k)
+                    with open(sp, "w") as f:
+                        json.dump(schema, f)
+                    for j, i in enumerate(nums):
+                        if kind != "bound" and not exact_domain(i, b):
+                            continue
+                        want = expected_bound(i, b, *exp) if kind == "bound" else is_multiple(i, b)
+                        ip = "%s/i%d_%d.json" % (tmp, k, j)
+                        with open(ip, "w") as f:
+                            json.dump(i, f)
+                        _cli_one(ctx, draft, schema, i, sp, ip, want)
+    finally:
+        shutil.rmtree(tmp, ignore_errors=True)
+
+
+def _cli_one(ctx, draft, schema, i, sp, ip, want):
+    import io
+    from jsonschema import cli
+    case = {"draft": draft, "schema": schema, "instance": i, "entry": "cli"}
+    ctx.case([draft, schema, i, "cli"])
+    ctx.count("compared_through_cli")
+    out, err = io.StringIO(), io.StringIO()
+    try:
+        code = cli.run(cli.parse_args(["-V", "jsonschema.Draft%dValidator" % draft, "-i", ip, sp]), stdout=out, stderr=err)
+    except BaseException as e:
+        ctx.violation("raised", case, "command line: %s: %s" % (type(e).__name__, str(e)[:120]))
+        return
+    if (code == 0) != want:
+        ctx.violation("cli", case, "command line exit status %r (stderr %r), exact arithmetic says %s" % (
+            code, err.getvalue()[:80], "valid" if want else "invalid"))
+
+
 def expected_bound(i, b, op, strict):
     fi, fb = fr(i), fr(b)
     if op == "ge":
@@ -263,6 +313,7 @@ def run(ctx):
                         if isinstance(i, int) and abs(i) < 2 ** 60:
                             check_triple(ctx, d, i + 1, a, b, validators)
                             check_triple(ctx, d, i - 1, a, b, validators)
+        cli_cases(ctx)
         # seeded random pairs
         rng = ctx.rng
         for _ in range(ctx.scale(3000, 60000)):
@@ -306,6 +357,24 @@ def replay(ctx, rec):
     c = rec["case"]
     s = c["schema"]
     d = c["draft"]
+    if c.get("entry") == "cli":
+        import json
+        import shutil
+        import tempfile
+        b = next(v for k, v in s.items() if not isinstance(v, bool))
+        kind, exp = next((k, e) for sc, k, e in schemas_for(d, b) if sc == s)
+        i = c["instance"]
+        want = expected_bound(i, b, *exp) if kind == "bound" else is_multiple(i, b)
+        tmp = tempfile.mkdtemp(prefix="vf_c09_")
+        try:
+            with open(tmp + "/s.json", "w") as f:
+                json.dump(s, f)
+            with open(tmp + "/i.json", "w") as f:
+                json.dump(i, f)
+            _cli_one(ctx, d, s, i, tmp + "/s.json", tmp + "/i.json", want)
+        finally:
+            shutil.rmtree(tmp, ignore_errors=True)
+        return
     nested = "inner" in c
     if nested:
         s, inst = c["inner"]["schema"], c["inner"]["instance"]
